@@ -155,7 +155,20 @@ def _callers_guard(prog, f, pidx):
             if pidx >= len(args):
                 return False
             key = _symkey(args[pidx])
-            if key is None or not _nonzero_guard(P, c, key):
+            keys = [key]
+            # `const SizeType n = static_cast<SizeType>(count);` : a test of `count` is a test of `n`
+            li = A.local_inits(g['body'])
+            written = {A.strip(l).get('did') for _st, l in A.stores(g['body']) if isinstance(A.strip(l), dict) and A.strip(l).get('k') == 'ref'}
+            cur, hops = A.strip(args[pidx]), 0
+            while isinstance(cur, dict) and cur.get('k') == 'ref' and cur.get('dk') == 'local' and cur.get('did') not in written and hops < 4:
+                ini = li.get(cur.get('did'))
+                if not ini or ini[0] is None:
+                    break
+                cur = A.strip(ini[0])
+                hops += 1
+                if _symkey(cur) is not None:
+                    keys.append(_symkey(cur))
+            if key is None or not any(_nonzero_guard(P, c, k_) for k_ in keys):
                 return False
     return True
 
